@@ -176,10 +176,25 @@ func (vc *FuncVC) propTags(extra ...string) []string {
 
 // ---------------------------------------------------------------- values
 
+// freshCap: the capacity of a slice whose length is ln is only known to be at least ln.
+func (vc *FuncVC) freshCap(ln Term) *Val {
+	c := vc.fresh("cap", SInt)
+	vc.assume(And(Ge(c, ln), Lt(c, BigLit(pow2big(62)))))
+	return &Val{T: c}
+}
+
+// capOf: the capacity component of a slice value.
+func (vc *FuncVC) capOf(v *Val) Term {
+	if len(v.Elems) < 3 {
+		v.Elems = append(v.Elems, vc.freshCap(v.Elems[1].T))
+	}
+	return v.Elems[2].T
+}
+
 func (vc *FuncVC) zeroVal(t types.Type) *Val {
 	if sl, ok := t.Underlying().(*types.Slice); ok {
 		_ = sl
-		return &Val{Kind: vSlice, Elems: []*Val{{T: IntLit(0)}, {T: IntLit(0)}}, GoType: t}
+		return &Val{Kind: vSlice, Elems: []*Val{{T: IntLit(0)}, {T: IntLit(0)}, {T: IntLit(0)}}, GoType: t}
 	}
 	if s, ok := scalarSort(t); ok {
 		switch s {
@@ -216,7 +231,7 @@ func (vc *FuncVC) freshVal(hint string, t types.Type) *Val {
 		p := vc.fresh(hint+"_ptr", SInt)
 		l := vc.fresh(hint+"_len", SInt)
 		vc.assume(And(Ge(l, IntLit(0)), Ge(p, IntLit(0))))
-		return &Val{Kind: vSlice, Elems: []*Val{{T: p}, {T: l}}, GoType: t}
+		return &Val{Kind: vSlice, Elems: []*Val{{T: p}, {T: l}, vc.freshCap(l)}, GoType: t}
 	}
 	if s, ok := scalarSort(t); ok {
 		if p, isPtr := t.Underlying().(*types.Pointer); isPtr {
@@ -604,7 +619,7 @@ func (vc *FuncVC) loadLoc(st *State, l *Loc) *Val {
 		pv := vc.define("sl_ptr", p)
 		nv := vc.define("sl_len", n)
 		vc.assume(And(Ge(nv, IntLit(0)), Ge(pv, IntLit(0)), Implies(Gt(nv, IntLit(0)), Gt(pv, IntLit(0)))))
-		return &Val{Kind: vSlice, Elems: []*Val{{T: pv}, {T: nv}}, GoType: l.Slice}
+		return &Val{Kind: vSlice, Elems: []*Val{{T: pv}, {T: nv}, vc.freshCap(nv)}, GoType: l.Slice}
 	}
 	if strings.HasPrefix(l.Key, "global.") {
 		// load of a package-level scalar/pointer variable
@@ -721,7 +736,7 @@ func (vc *FuncVC) setupParams() {
 			pt := vc.named("p_"+name+"_ptr", SInt)
 			ln := vc.named("p_"+name+"_len", SInt)
 			vc.assume(And(Ge(ln, IntLit(0)), Lt(IntLit(0), pt), Le(Add(pt, ln), vc.entry.cnt), Le(ln, IntLit(4096))))
-			v = &Val{Kind: vSlice, Elems: []*Val{{T: pt}, {T: ln}}, GoType: t}
+			v = &Val{Kind: vSlice, Elems: []*Val{{T: pt}, {T: ln}, vc.freshCap(ln)}, GoType: t}
 		} else if s, ok := scalarSort(t); ok {
 			c := vc.named("p_"+name, s)
 			vc.assume(rangeFact(c, t))
